@@ -13,7 +13,8 @@ def _mutate_result(r, b):
     si = [str(x) for x in r.ids()]
     r.transform(lambda v, i, m: v * 3, axis='sample', inplace=True)
     r.transform(lambda v, i, m: v * 5, axis='observation', inplace=True)
-    r.update_ids({x: 'Z' + x for x in si}, axis='sample', inplace=True)
+    same_width = {x: ('Z' + x)[:max(1, len(x))] for x in si}        # as wide as the old names: an id buffer can be rewritten in place
+    r.update_ids(same_width if len(set(same_width.values())) == len(si) else {x: 'Z' + x for x in si}, axis='sample', inplace=True)
     r.update_ids({x: ('Y' + x)[:max(1, len(x))] for x in oi}, axis='observation', strict=True, inplace=True) \
         if len({('Y' + x)[:max(1, len(x))] for x in oi}) == len(oi) else None
     for ax in ('sample', 'observation'):
